@@ -47,6 +47,68 @@ func registerExtras(p *Program) {
 	I[verifPkg+".Param"] = func(ex *Exec, fr *frame, fn *ssa.Function, a []Value) Value {
 		return StrC(os.Getenv("GOSYM_PARAM_" + constStr(a[0], "Param name")))
 	}
+	I[verifPkg+".ResetLabels"] = func(ex *Exec, fr *frame, fn *ssa.Function, a []Value) Value {
+		// the next inputs get the same names (hence are the same symbols) as the first ones:
+		// used to build two worlds from one symbolic pre-state for two-run (relational) checks
+		for k := range ex.counters {
+			if !strings.HasPrefix(k, "choice!") {
+				delete(ex.counters, k)
+			}
+		}
+		ex.lastNow = nil
+		ex.nowCount = 0
+		return nil
+	}
+	I[verifPkg+".Exposes"] = func(ex *Exec, fr *frame, fn *ssa.Function, a []Value) Value {
+		// structural (Dolev-Yao) exposure: some input symbol of the secret occurs in the sink
+		// outside every one-way hash application
+		sink, secret := tstr(a[0]), tstr(a[1])
+		svars := map[int]bool{}
+		Walk(secret, map[int]bool{}, func(x *Term) {
+			if x.Op == "var" {
+				svars[x.ID] = true
+			}
+		})
+		if len(a) > 2 {
+			// the public part of the secret (e.g. the account identifier inside a remember cookie)
+			Walk(tstr(a[2]), map[int]bool{}, func(x *Term) {
+				if x.Op == "var" {
+					delete(svars, x.ID)
+				}
+			})
+		}
+		if len(svars) == 0 {
+			if secret.IsConst() && secret.S != "" && sink.IsConst() {
+				return BoolC(strings.Contains(sink.S, secret.S))
+			}
+			return False
+		}
+		found := false
+		var visit func(x *Term)
+		seen := map[int]bool{}
+		visit = func(x *Term) {
+			if found || seen[x.ID] {
+				return
+			}
+			seen[x.ID] = true
+			if x.Op == "app" && (x.S == "sha512" || x.S == "ideal_hash") {
+				return // one-way
+			}
+			if x.Op == "str.len" {
+				return // only the length: not a disclosure of the value
+			}
+			if x.Op == "var" && svars[x.ID] {
+				found = true
+				return
+			}
+			for _, c := range x.Args {
+				visit(c)
+			}
+		}
+		visit(sink)
+		return BoolC(found)
+	}
+	I[verifPkg+".ExposesBeyond"] = I[verifPkg+".Exposes"]
 	I[verifPkg+".NoSummaries"] = func(ex *Exec, fr *frame, fn *ssa.Function, a []Value) Value {
 		ex.noSummary = true
 		return nil
